@@ -771,6 +771,29 @@ impl G {
     /// batches of EQUAL size and case flag, whose printed order must not vary from call to call
     pub fn pure_shape_source(&mut self) -> J {
         let pat = |k: &str, a: &str| json!({"t":"pat","k":k,"ic":false,"a":cps(a)});
+        // 4: a condition that names an identifier in a spelling NO key has, while two keys differ from it
+        // only in letter case: the rule does not load - and if a loader ever resolved the name leniently,
+        // which key it found must not depend on the load (hash order)
+        if self.r.chance(1, 8) {
+            let names = *self.r.pick(&[["selection", "SELECTION", "Selection"], ["ab", "AB", "aB"], ["Proc", "proc", "PROC"]]);
+            self.own_docs = Some(vec![obj(vec![("f".into(), s_node("x"))]), obj(vec![("f".into(), s_node("y"))]), obj(vec![])]);
+            return json!({"_undef":true,"cond":{"t":"id","n":cps(names[2])},
+                          "ids":[[cps(names[0]),{"t":"map","es":[{"m":"none","c":0,"f":cps("f"),"v":pat("exact", "x")}]}],
+                                 [cps(names[1]),{"t":"map","es":[{"m":"none","c":0,"f":cps("f"),"v":pat("exact", "y")}]}]]});
+        }
+        // 3: regexes over LONG values (600+ characters) with different outcomes, matched from several
+        // threads at once in different orders
+        if self.r.chance(1, 7) {
+            let c = |ch: char| json!({"t":"c","c":ch as u32});
+            let v1 = json!({"t":"pat","k":"regex","ic":false,"a":[c('a'), c('b'), json!({"t":"star"})]});
+            let v2 = json!({"t":"pat","k":"regex","ic":false,"a":[json!({"t":"bol"}), c('q'), c('a')]});
+            let v = if self.r.chance(1, 2) { v1 } else { json!({"t":"list","vs":[v1, v2]}) };
+            let pad = |ch: &str, n: usize, tail: &str| format!("{}{}", ch.repeat(n), tail);
+            self.own_docs = Some(vec![obj(vec![("f".into(), s_node(&pad("q", 600, "ab")))]), obj(vec![("f".into(), s_node(&pad("q", 600, "")))]),
+                                      obj(vec![("f".into(), s_node(&pad("x", 560, "ba")))]), obj(vec![("f".into(), s_node(&pad("y", 640, "abz")))]),
+                                      obj(vec![("f".into(), s_node(&pad("z", 700, "a")))]), obj(vec![("f".into(), s_node(&pad("w", 520, "b ab")))])]);
+            return json!({"cond":{"t":"id","n":cps("A")},"ids":[[cps("A"),{"t":"map","es":[{"m":"none","c":0,"f":cps("f"),"v":v}]}]]});
+        }
         // 2: one or two regexes (the next case is the same rule with every case flag flipped: the same
         // regex TEXT compiled with the other flag in the same process)
         if self.r.chance(1, 3) {
@@ -2297,6 +2320,21 @@ pub fn gen_cases(topic: &str, seed: u64, n: usize, path: &str) -> Result<(), Str
                                 }
                             }
                         }
+                        // a member LITERALLY named like a dotted path of the rule (`"s.t": v`, the way flattened
+                        // logs are shipped) is not what the key `s.t` addresses: no predicate reads it
+                        let dotted: Vec<String> = hints.keys().filter(|k| k.contains('.') || k.contains('[')).cloned().collect();
+                        if !dotted.is_empty() && g.r.chance(1, 2) {
+                            let name = g.r.pick(&dotted).clone();
+                            let val = match hints.get(&name).and_then(|v| v.iter().find(|x| x["t"] == "pat")).cloned() {
+                                Some(p) if g.r.chance(2, 3) => s_node(&g.near(&p)),
+                                _ => match g.r.below(3) { 0 => s_node("x"), 1 => i_node("1"), _ => s_node(&g.word(3, true)) },
+                            };
+                            if let Some(kv) = pd.get_mut("kv").and_then(|k| k.as_array_mut()) {
+                                if !kv.iter().any(|p| str_of(&p[0]).map(|x| x == name).unwrap_or(false)) {
+                                    kv.push(json!([cps(&name), val]));
+                                }
+                            }
+                        }
                         all_docs.push(pd);
                         dcls.push(ci);
                     }
@@ -2736,6 +2774,26 @@ pub fn gen_cases(topic: &str, seed: u64, n: usize, path: &str) -> Result<(), Str
                 json!({"topic":"str","oracle":true,"wt":true,"src":src,"docs":docs,
                        "plan":{"tri":false,"sws":[[], [true,true,true,true]]}})
             }
+            // booleans and numbers under a str() cast are compared as their exact canonical text - they are
+            // not string PATTERNS, so neither the i prefix nor the ignore_case build folds them - next to
+            // real patterns on the same field (a list, or or-ed identifiers that shake regroups)
+            "str" if mode == 1 && g.r.chance(1, 2) => {
+                let lit = match g.r.below(3) { 0 => json!({"t":"bool","b":true}), 1 => json!({"t":"bool","b":false}), _ => json!({"t":"num","n":int_node("7")}) };
+                let p1 = json!({"t":"pat","k":*g.r.pick(&["prefix", "exact", "contains"]),"ic":false,"a":cps(*g.r.pick(&["x", "tr", "fa"]))});
+                let p2 = json!({"t":"pat","k":"suffix","ic":false,"a":cps("z")});
+                let ent = |v: J| json!({"m":"str","c":0,"f":cps("f"),"v":v});
+                let src = if g.r.chance(1, 2) {
+                    json!({"cond":{"t":"id","n":cps("A")},"ids":[[cps("A"),{"t":"map","es":[ent(json!({"t":"list","vs":[lit, p1, p2]}))]}]]})
+                } else {
+                    json!({"cond":{"t":"or","l":{"t":"or","l":{"t":"id","n":cps("A")},"r":{"t":"id","n":cps("B")}},"r":{"t":"id","n":cps("C")}},
+                           "ids":[[cps("A"),{"t":"map","es":[ent(lit)]}],[cps("B"),{"t":"map","es":[ent(p1)]}],[cps("C"),{"t":"map","es":[ent(p2)]}]]})
+                };
+                let vals = vec![s_node("TRUE"), s_node("True"), s_node("true"), s_node("FALSE"), s_node("false"), json!({"t":"B","b":true}),
+                                json!({"t":"B","b":false}), s_node("7"), i_node("7"), s_node("Xy"), s_node("qZ"), s_node("TRx")];
+                let docs: Vec<J> = vals.into_iter().map(|v| obj(vec![("f".into(), v)])).collect();
+                json!({"topic":"str","oracle":true,"wt":true,"src":src,"docs":docs,
+                       "plan":{"tri":false,"sws":[[], [true,true,true,true], [false,true,false,false], [true,true,false,false]]}})
+            }
             "str" => {
                 let n = 1 + g.r.below(5);
                 // members of one list usually share a batch class (kind family and case flag), so
@@ -2912,6 +2970,41 @@ pub fn gen_cases(topic: &str, seed: u64, n: usize, path: &str) -> Result<(), Str
                        "plan":{"tri":false,"scope":"sw","sws":[[], [true,true,true,true]],
                                "reprs":["json","jsontext","yamltext","hm","own","doc","ownfind"]}})
             }
+            // values at the edge of what a representation carries: texts that end in a line break
+            // (under end-sensitive patterns), floats that are not finite (serde_json cannot carry them;
+            // every other representation must keep them floats)
+            "repr" if mode == 6 => {
+                let cond = if g.r.chance(1, 3) { json!({"t":"not","e":{"t":"id","n":cps("A")}}) } else { json!({"t":"id","n":cps("A")}) };
+                if g.r.chance(1, 2) {
+                    let v = match g.r.below(4) {
+                        0 => json!({"t":"pat","k":"exact","ic":false,"a":cps("x")}),
+                        1 => json!({"t":"pat","k":"suffix","ic":false,"a":cps("x")}),
+                        2 => json!({"t":"pat","k":"exact","ic":false,"a":cps("x\n")}),
+                        _ => json!({"t":"pat","k":"suffix","ic":true,"a":cps("ax")}),
+                    };
+                    let src = json!({"cond":cond,"ids":[[cps("A"),{"t":"map","es":[{"m":"none","c":0,"f":cps("f"),"v":v}]}]]});
+                    let docs: Vec<J> = ["x\n", "x", "ax\n", "x\n\n", "AX", "\nx", "x\r\n", "ax \n"].iter().map(|t| obj(vec![("f".into(), s_node(t))])).collect();
+                    json!({"topic":"repr","oracle":true,"wt":true,"src":src,"docs":docs,
+                           "plan":{"tri":false,"scope":"sw","sws":[[], [true,true,true,true]],
+                                   "reprs":["json","jsontext","yamltext","hm","own","doc","ownfind"]}})
+                } else {
+                    let e = match g.r.below(5) {
+                        0 => json!({"m":"none","c":0,"f":cps("f"),"v":{"t":"cmp","op":"gt","n":int_node("1")}}),
+                        1 => json!({"m":"none","c":0,"f":cps("f"),"v":{"t":"null"}}),
+                        2 => json!({"m":"flt","c":0,"f":cps("f"),"v":{"t":"cmp","op":"lt","n":flt_node("0.5")}}),
+                        3 => json!({"m":"none","c":0,"f":cps("f"),"v":{"t":"cmp","op":"le","n":flt_node("2.5")}}),
+                        _ => json!({"m":"none","c":0,"f":cps("f"),"v":{"t":"cmp","op":"lt","n":int_node("0")}}),
+                    };
+                    let src = json!({"cond":cond,"ids":[[cps("A"),{"t":"map","es":[e]}]]});
+                    let sp = |neg: bool, k: &str| json!({"t":"F","neg":neg,"d":[],"fr":[],"sp":k});
+                    let vals = vec![sp(false, "inf"), sp(true, "inf"), sp(false, "nan"), f_node("2.5"), json!({"t":"N"}), i_node("3"),
+                                    json!({"t":"A","vs":[sp(false, "inf"), f_node("0.25")]})];
+                    let docs: Vec<J> = vals.into_iter().map(|v| obj(vec![("f".into(), v)])).collect();
+                    json!({"topic":"repr","oracle":true,"wt":true,"src":src,"docs":docs,
+                           "plan":{"tri":false,"scope":"sw","sws":[[], [true,true,true,true]],
+                                   "reprs":["yamltext","hm","own","doc","ownfind"]}})
+                }
+            }
             "repr" if mode == 3 || mode == 4 => {
                 let paths = ["p.q", "r", "s.t.u", "p.v"];
                 let n = 1 + g.r.below(3);
@@ -2989,6 +3082,13 @@ pub fn gen_cases(topic: &str, seed: u64, n: usize, path: &str) -> Result<(), Str
             _ => return Err(format!("unknown topic {}", topic)),
         };
         let mut c = c;
+        if c["src"].get("_undef").is_some() {
+            // the condition names an identifier no key spells that way: not well typed, no oracle
+            c["wt"] = json!(false);
+            c["oracle"] = json!(false);
+            if let Some(o) = c["src"].as_object_mut() { o.remove("_undef"); }
+            c["plan"]["notwin"] = json!(true);
+        }
         if topic == "pure" {
             // every second case is the TWIN of the one before: the same rule with every case flag
             // flipped, on the same documents - identical pattern texts that must not share state
